@@ -72,13 +72,16 @@ def digest(x):
 
 
 def site_of(tb):
-    """(last frame inside vtlengine as 'file:function', deepest frame is inside the stand-in parser?)"""
-    frames = [f for f in traceback.extract_tb(tb) if f.name != '_alarm']
-    last = None
-    for f in frames:
-        if '/vtlengine/' in f.filename:
-            last = '%s:%s' % (f.filename.split('/vtlengine/')[-1], f.name)
-    deepest = frames[-1].filename if frames else ''
+    """(last frame inside vtlengine as 'file:function', deepest frame is inside the stand-in parser?)
+    walks the traceback by hand (no source lookups: tracebacks of deep recursions have 10^4 frames)"""
+    last, deepest = None, ''
+    while tb is not None:
+        co = tb.tb_frame.f_code
+        if co.co_name != '_alarm':
+            deepest = co.co_filename
+            if '/vtlengine/' in co.co_filename:
+                last = '%s:%s' % (co.co_filename.split('/vtlengine/')[-1], co.co_name)
+        tb = tb.tb_next
     return last, ('vtlstub' in deepest)
 
 
@@ -90,28 +93,41 @@ def winit_slow():
 def outcome(fn, text, budget=None):
     """('ok', digest) | ('vtl', class, lino, colno, msg) | ('raw', class, site, msg) | ('stub_limit', what)"""
     budget = budget or _W.get('budget', CALL_BUDGET_S)
-    signal.alarm(budget)
     try:
-        try:
-            r = fn(text)
-            out = ('ok', digest(dump(r)))
-        except _W['VE'] as e:
-            out = ('vtl', type(e).__name__, e.lino, e.colno, str(e))
-        except _Timeout as e:
-            s, instub = site_of(e.__traceback__)
-            out = ('stub_limit', 'timeout') if instub else ('raw', 'Timeout', s, 'no answer within %ds' % budget)
-        except RecursionError as e:
-            s, instub = site_of(e.__traceback__)
-            out = ('stub_limit', 'RecursionError') if instub else ('raw', 'RecursionError', s, '')
-        except MemoryError:
-            out = ('stub_limit', 'MemoryError')
-        except BaseException as e:  # noqa: BLE001
-            s, instub = site_of(e.__traceback__)
-            out = ('raw', type(e).__name__, s or ('vtlstub' if instub else '?'), str(e)[:160]) if not (instub and s is None) \
-                else ('stub_limit', type(e).__name__)
+        return _outcome(fn, text, budget)
+    except _Timeout:            # the alarm fired while an exception handler below was still running
+        signal.alarm(0)
+        return ('stub_limit', 'timeout')
     finally:
         signal.alarm(0)
-    return out
+
+
+def _outcome(fn, text, budget):
+    signal.alarm(budget)
+    try:
+        r = fn(text)
+        signal.alarm(0)
+        return ('ok', digest(dump(r)))
+    except _W['VE'] as e:
+        signal.alarm(0)
+        return ('vtl', type(e).__name__, e.lino, e.colno, str(e))
+    except _Timeout as e:
+        signal.alarm(0)
+        s, instub = site_of(e.__traceback__)
+        return ('stub_limit', 'timeout') if instub else ('raw', 'Timeout', s, 'no answer within %ds' % budget)
+    except RecursionError as e:
+        signal.alarm(0)
+        s, instub = site_of(e.__traceback__)
+        return ('stub_limit', 'RecursionError') if instub else ('raw', 'RecursionError', s, '')
+    except MemoryError:
+        signal.alarm(0)
+        return ('stub_limit', 'MemoryError')
+    except BaseException as e:  # noqa: BLE001
+        signal.alarm(0)
+        s, instub = site_of(e.__traceback__)
+        if instub and s is None:
+            return ('stub_limit', type(e).__name__)
+        return ('raw', type(e).__name__, s or '?', str(e)[:160])
 
 
 def check_position(text, o):
@@ -503,6 +519,11 @@ def trace(msg):
         print('[c23 %6.1fs] %s' % (time.time() - _T0, msg), file=sys.stderr, flush=True)
 
 
+def pmap(pool, fn, args, limit_s=3 * 3600):
+    """pool.map that cannot wait for ever when a worker process died (-> harness error, exit 2)"""
+    return pool.map_async(fn, args, chunksize=1).get(timeout=limit_s)
+
+
 def main(ck):
     import resource
     try:
@@ -686,15 +707,15 @@ def main(ck):
     ctx = mp.get_context('fork')
     t0 = time.time()
     with ctx.Pool(16, initializer=winit) as pool:
-        rA = pool.map(task_history, [[texts[i] for i in h] for h in hA], chunksize=1)
-        rB = pool.map(task_history_light, [[texts[i] for i in h] for h in hB], chunksize=1)
+        rA = pmap(pool, task_history, [[texts[i] for i in h] for h in hA])
+        rB = pmap(pool, task_history_light, [[texts[i] for i in h] for h in hB])
         nest_cases = [(f, n, NEST[f](n)) for f in ('paren', 'chain', 'neg', 'not', 'if') for n in (NEST_OK, NEST_PROBE)]
-        rN = pool.map(task_default_limit, [c[2] for c in nest_cases], chunksize=1)
-        rH = pool.map(task_hier_probe, [0], chunksize=1)
+        rN = pmap(pool, task_default_limit, [c[2] for c in nest_cases])
+        rH = pmap(pool, task_hier_probe, [0])
     n_fresh = 16 if quick else 96
     fresh_idx = rng.sample(range(len(texts)), min(n_fresh, len(texts)))
     with ctx.Pool(16, initializer=winit, maxtasksperchild=1) as pool:
-        rF = pool.map(task_fresh, [texts[i] for i in fresh_idx], chunksize=1)
+        rF = pmap(pool, task_fresh, [texts[i] for i in fresh_idx])
     notes['py_wall_s'] = round(time.time() - t0, 1)
 
     resA, resB, prevA, prevB = {}, {}, {}, {}
@@ -751,7 +772,7 @@ def main(ck):
     # a timeout inside the repo's Python layer counts only when it persists alone with a 12x budget (the machine is shared)
     if slow:
         with ctx.Pool(4, initializer=winit_slow) as pool:
-            again = pool.map(task_fresh, [t for _, t, _ in slow[:8]], chunksize=1)
+            again = pmap(pool, task_fresh, [t for _, t, _ in slow[:8]])
         for (which, t, oo), x in zip(slow, again):
             for oo2 in (x[0], x[2]):
                 if oo2[0] == 'raw' and oo2[1] == 'Timeout':
